@@ -34,8 +34,6 @@ type Action struct {
 	N int    `json:"n,omitempty"` // read size
 	P *Pay   `json:"p,omitempty"` // write payload
 	Q *Pay   `json:"q,omitempty"` // what the service refills its write buffer with right after Write returns
-	// filled in while executing
-	udpL, udpR *Addr
 }
 
 type Res struct {
@@ -109,7 +107,9 @@ func (a Action) Coq() string {
 	case "close":
 		return fmt.Sprintf("(AClose %d)", a.C)
 	case "udpw":
-		return fmt.Sprintf("(AUdpW %s %s %s %s)", a.udpL.Coq(), a.udpR.Coq(), coqB(a.P.Bytes()), coqB(a.refill()))
+		// the answer is identified by WHICH datagram pseudo-connection (accept order) it is written on;
+		// the addresses it must carry are the model's business (those of that datagram)
+		return fmt.Sprintf("(AUdpR %d %s %s)", a.C, coqB(a.P.Bytes()), coqB(a.refill()))
 	}
 	return "ADisc"
 }
@@ -633,8 +633,6 @@ func (e *env) run(plan []Action) (exec []Action, res []Res, frames []Msg, hs *Ms
 				return ""
 			}
 			u := s.udp[a.C]
-			l, r := fromNet(u.LocalAddr()), fromNet(u.RemoteAddr())
-			a.udpL, a.udpR = &l, &r
 			s.exec = append(s.exec, a)
 			p := a.P.Bytes()
 			uch := make(chan error, 1)
